@@ -18,15 +18,16 @@ PROP = {
                   "socket capacity and frame sizes) the commands put on the wire are, for a value lane, a "
                   "subsequence of the issued ones ending with the last issued, and for a map lane a per-key "
                   "subsequence that never crosses a clear, so that once the socket has drained the lane has seen "
-                  "the fold of everything issued. The model is tied to the public ValueDownlinkRuntime / "
+                  "the fold of everything issued, and a sync frame is owed to a SYNC consumer only while a write is "
+                  "pending (none once Idle). The model is tied to the public ValueDownlinkRuntime / "
                   "MapDownlinkRuntime by lock-step differential execution (one input, run to idle, compare all "
                   "consumer notifications and socket frames) and a Lean monitor re-decides the property on the "
                   "implementation's traces.",
     "level_note": "The tokio scheduler, select! branch order and bursts of simultaneous inputs are outside the model "
                   "(lock-step: one input at a time, run to idle); the inactivity timeout/vote is not fired (C17); a "
                   "command from a consumer whose registration the write task has not yet taken is excluded by an "
-                  "enabling predicate; three deviations of the current code are recorded as known findings (F8 and "
-                  "two that need a protocol-violating remote / the non-default ignore strategy).",
+                  "enabling predicate. Three deviations found by this check (F8, C07-F2, C07-F3) have been repaired in "
+                  "/repo (7d3b0a2, c2208d5, 47607a1); the monitor keeps their verdicts so a regression is a VIOLATION.",
     "trusted_base": COMMON_TRUST + [
         "modelled, not verified: tokio (paused current_thread runtime, mpsc, select!), futures SelectAll, "
         "tokio_util FramedWrite/FramedRead (feed = encode only below the 8 KiB back-pressure boundary, flush = write "
